@@ -72,6 +72,10 @@ class BaseThread(threading.Thread):
         """
 
     def start(self) -> None:
+        if self.ident is not None:
+            # Refuse before on_thread_start() sets anything up a second time.
+            msg = "threads can only be started once"
+            raise RuntimeError(msg)
         self.on_thread_start()
         try:
             threading.Thread.start(self)
